@@ -35,6 +35,9 @@ type Walker struct {
 	offset   int
 	failFast bool
 
+	// valueDepth is the number of array values popValue is currently inside.
+	valueDepth int
+
 	errors errpos.Errors
 }
 
@@ -281,6 +284,9 @@ func (ww *Walker) popType(tt TokenType) (Token, *unexpectedTokenError) {
 	return tok, nil
 }
 
+// maxValueDepth is the deepest nesting of array values the parser accepts.
+const maxValueDepth = 1000
+
 func (ww *Walker) popValue() (Value, *unexpectedTokenError) {
 	if ww.nextType() == IDENT {
 		ref, err := ww.popReference()
@@ -312,6 +318,16 @@ func (ww *Walker) popValue() (Value, *unexpectedTokenError) {
 	}
 
 	if ww.nextType() == LBRACK {
+		if ww.valueDepth >= maxValueDepth {
+			// each level is a stack frame, the input must not decide how
+			// many of those there are.
+			err := unexpectedToken(ww.popToken(), AnyLiteral)
+			err.context = "arrays are nested too deeply"
+			return Value{}, err
+		}
+		ww.valueDepth++
+		defer func() { ww.valueDepth-- }()
+
 		opener := ww.popToken()
 
 		if ww.nextType() == RBRACK {
